@@ -37,6 +37,7 @@ func main() {
 			os.Exit(2)
 		}
 		var offsets []int
+		ends := map[int]bool{} // offsets of closing braces (need a separating semicolon)
 		isHook := func(st ast.Stmt) bool {
 			if e, ok := st.(*ast.ExprStmt); ok {
 				if c, ok := e.X.(*ast.CallExpr); ok {
@@ -62,12 +63,34 @@ func main() {
 				offsets = append(offsets, fset.Position(st.Pos()).Offset)
 			}
 		}
+		// a point at the END of every function body without results (named
+		// functions and literals): between the last statement - typically an
+		// Unlock - and the deferred calls that run on return
+		endOf := func(ft *ast.FuncType, body *ast.BlockStmt) {
+			if body == nil || (ft.Results != nil && len(ft.Results.List) > 0) {
+				return
+			}
+			if n := len(body.List); n > 0 {
+				if _, ok := body.List[n-1].(*ast.ReturnStmt); ok {
+					return
+				}
+				if isHook(body.List[n-1]) {
+					return
+				}
+			}
+			ends[fset.Position(body.Rbrace).Offset] = true
+			offsets = append(offsets, fset.Position(body.Rbrace).Offset)
+		}
 		for _, d := range f.Decls {
 			fd, ok := d.(*ast.FuncDecl)
-			if !ok || fd.Body == nil || fd.Name.Name == "simPoint" {
+			if !ok || fd.Body == nil || fd.Name.Name == "simPoint" || fd.Name.Name == "simPointAuto" {
 				continue
 			}
+			endOf(fd.Type, fd.Body)
 			ast.Inspect(fd.Body, func(n ast.Node) bool {
+				if fl, ok := n.(*ast.FuncLit); ok {
+					endOf(fl.Type, fl.Body)
+				}
 				switch b := n.(type) {
 				case *ast.BlockStmt:
 					addList(b.List)
@@ -87,7 +110,11 @@ func main() {
 				continue
 			}
 			last = off
-			out = append(out[:off:off], append([]byte(call), out[off:]...)...)
+			text := call
+			if ends[off] {
+				text = "; " + call
+			}
+			out = append(out[:off:off], append([]byte(text), out[off:]...)...)
 			total++
 		}
 		if err := os.WriteFile(path, out, 0o644); err != nil {
